@@ -108,7 +108,7 @@ def collect_fresh(ctx, procs, jobs, labels, first, events, metas, intern):
 
 # ---------------------------------------------------------------------------------------
 def threads(ctx, corpus, events, metas, pool_events, pool_meta, intern, rowintern, orders):
-    for inp in corpus:
+    for n_inp, inp in enumerate(corpus):
         for method in mc.DISCRETE:
             if not mc.applicable(inp, method):
                 continue
@@ -117,7 +117,7 @@ def threads(ctx, corpus, events, metas, pool_events, pool_meta, intern, rowinter
             if not base.ok:
                 continue
             ida = mc.id_components(base.ts)
-            for nt in (1, 2, 4):
+            for nt in ((1, 2, 4) if (n_inp == 0 or not ctx.quick) else (2,)):
                 r, keys, arrivals, cache = mc.pool_call(inp.ts, method, nt, **kw)
                 ctx.evaluations += 1
                 tid = f"threads/{inp.name}/{method}/num_threads={nt}"
@@ -153,6 +153,10 @@ def schedule_delays(K, W, order):
 def replay_schedules(ctx, scheds, tiny, pool_events, pool_meta, rowintern, orders):
     realised = 0
     tried = 0
+    scheds = [s for s in scheds if s["W"] >= 2]
+    if ctx.quick and len(scheds) > 10:  # every K, W at least once, then a seeded sample
+        scheds = sorted(scheds, key=lambda s: (s["K"], s["W"], s["arrivals"]))
+        scheds = ctx.rng.sample(scheds, 10)
     for s in scheds:
         K, W, order = s["K"], s["W"], s["arrivals"]
         if W < 2 or K not in tiny:
